@@ -138,3 +138,16 @@ pub fn dict() -> Vec<Vec<u8>> {
     v.dedup();
     v
 }
+
+/// the integer literals of the source under test (tools/extract.py --nums, path in FBV_NUMS): used as lengths, limits,
+/// destination and chunk sizes; empty when the variable is not set
+pub fn nums_dict() -> Vec<usize> {
+    let path = match std::env::var("FBV_NUMS") {
+        Ok(p) => p,
+        Err(_) => return vec![],
+    };
+    let mut v: Vec<usize> = std::fs::read_to_string(path).unwrap_or_default().lines().filter_map(|l| l.trim().parse::<u64>().ok()).map(|x| x as usize).collect();
+    v.sort();
+    v.dedup();
+    v
+}
